@@ -432,7 +432,7 @@ def build(tier):
         [
             Sub("block2_grid", run_case, cases=cases_block2_grid, exhaustive=True, note="14 rendering lengths x 6 first-request sizes x 5 follow-up sizes x 5 block numbers"),
             Sub("slow_transfers", run_case, cases=cases_slow_transfers, exhaustive=True, note="2-6 blocks x gap 1/50/60/92 s x with/without a second client's abandoned transfer x szx 0/2, then Block2 read-back at the same pace"),
-            Sub("histories", run_case, strategy=_case, budget={"quick": 3000, "thorough": 50000}, max_wall={"quick": 55, "thorough": 2400}),
+            Sub("histories", run_case, strategy=_case, budget={"quick": 3000, "thorough": 250000}, max_wall={"quick": 55, "thorough": 3600}),
         ],
         RULE,
         assumptions=[
